@@ -1727,8 +1727,12 @@ impl<K: Hash + Eq, V, RH: BuildHasher, REH: BuildHasher, FH: BuildHasher, FEH: B
     /// based on the current learned value of P
     fn replace(&mut self, freq_contains_key: bool) {
         let recent_evict_len = self.recent.len();
-        if recent_evict_len > 0
-            && (recent_evict_len > self.p || (recent_evict_len == self.p && freq_contains_key))
+        // the victim comes from the recent list when it is longer than p (or equal to p on a
+        // frequent-ghost hit); when the preferred list is empty fall back to the other one, so
+        // that a full cache always makes room
+        if (recent_evict_len > 0
+            && (recent_evict_len > self.p || (recent_evict_len == self.p && freq_contains_key)))
+            || self.frequent.is_empty()
         {
             match self.recent.remove_lru_in() {
                 None => None,
